@@ -186,6 +186,7 @@ func runC15(w *World, pi interface{}) {
 	case "xsend", "xrecv", "tlsup":
 		// transport-level operations against a peer that is silent / not reading
 		var c, s lime.Transport
+		var dripLink *simnet.Link
 		switch p.Transport {
 		case "tcp", "tcptls":
 			w.Net.OnLink = capFault
@@ -201,6 +202,7 @@ func runC15(w *World, pi interface{}) {
 				}
 			}
 			c, s = pair.Client, pair.Server
+			dripLink = pair.Link
 		case "ws", "wss":
 			cfg := &lime.WebsocketConfig{}
 			url := "ws://127.0.0.1:7502"
@@ -254,6 +256,23 @@ func runC15(w *World, pi interface{}) {
 		}
 		switch p.Op {
 		case "xrecv":
+			if p.PeerMode == 2 && p.Transport == "tcp" && dripLink != nil {
+				// a peer that is slow rather than silent: the beginning of an envelope, then one more
+				// byte of it every now and then, more often than the transport's read poll
+				dir := dripLink.AB
+				if tr == c {
+					dir = dripLink.BA
+				}
+				gap := []time.Duration{200 * time.Millisecond, time.Second, 4 * time.Second}[p.Stage%3]
+				dir.Inject([]byte(`{"id":"drip","type":"text/plain","content":"`))
+				go func() {
+					for i := 0; i < 600 && !simrt.Stopping(); i++ {
+						time.Sleep(gap)
+						dir.Inject([]byte("x"))
+					}
+				}()
+				w.Count("dripping-peer")
+			}
 			measure(w, p, "Transport.Receive", func(ctx context.Context) error {
 				_, err := tr.Receive(ctx)
 				return err
@@ -649,6 +668,7 @@ func init() {
 		MaxSim: 2 * time.Hour,
 		Rule: "plans = one context-taking operation per run: {Transport.Send, Transport.Receive, SetEncryption(TLS), Accept, channel SendMessage, ProcessCommand, client EstablishSession at 4 handshake stages, server EstablishSession at 4 stages, client FinishSession, server FinishSession/FailSession towards a client that consumes nothing (optionally after a command that was given up while a response bearing its id came in), SendMessage/ProcessCommand/Establish of the high-level Client while its own listener is stuck establishing against a silent server} " +
 			"x transport {tcp, tcp+tls, ws, wss, in-process; TCP transports with or without a TraceWriter} x peer {silent, not reading with full buffers of several sizes} x {deadline, cancellation} x context end in {0,1,50,900,4990,5010,7300,12000,31000} ms; " +
+			"the measured Transport.Send is either preceded by filling sends or is itself the first write larger than the peer's window; " +
 			"latency is measured on the simulated clock (code runs in zero simulated time); non-trivial = the operation was started; distinct = distinct (plan JSON, event-log hash)",
 	})
 }
